@@ -1,5 +1,6 @@
 import BoltonsVerif.Common
 import BoltonsVerif.C12.Model
+import BoltonsVerif.C12.Model3
 import BoltonsVerif.Generated.C12_Consts
 /-
 C12 line protocol.  One line = one whole case.
@@ -8,8 +9,8 @@ C12 line protocol.  One line = one whole case.
        script : `-` | events joined by `,` : `t` (socket.timeout) | `w` (the wall-clock deadline passes:
                 same model event as `t`, see Model.lean) | `e` (the socket raises a transient OSError: the
                 code's catch-all handlers do to the state exactly what the timeout handlers do, so again
-                the same model event; the outcome is printed `oserror` instead of `timeout` - which fault
-                of the script a raised fault belongs to is fixed by `timeout_accounting_exact`) | <hex> (a chunk)
+                the same model event; the outcome is printed `oserror` instead of `timeout` - the class of a
+                raised fault is the model's own bookkeeping, `BSock.rtags` / `dcall`, theorem `fault_class_exact`) | <hex> (a chunk)
        op     : r<n> recv(n) | p<n> peek(n) | s<n> recv_size(n)
               | u<w:0|1>:<max>:<hexdelim|-> recv_until | c<max> recv_close | m<n> setmaxsize(n)
        max    : U (argument omitted -> constructor maxsize) | N (None -> _RECV_LARGE_MAXSIZE) | <n>
@@ -32,6 +33,11 @@ C12 line protocol.  One line = one whole case.
        and read back with nreads read_ns calls.
      output: W:<per-write results `,`-joined>;<wire hex>;<per-read results `,`-joined>
   nsr <rcfg> <script> <nreads>          read_ns over an arbitrary script
+  dx <recvsize> <maxsize> <rscript> <sscript> <op> ...     ONE BufferedSocket, receive and send calls interleaved
+       op : R<rx op as above> | RF<size>:<flags> recv(size, flags) | S<tx op as above> | SF<hex|->:<flags> send(data, flags)
+     output per op: <res>/<rbuf hex>/<getsendbuffer hex>/<wire hex>, `;`-joined, then ` #<send faults left>`
+       res : ok:<hex|-> | closed | toolong | none | sent:<n> | timeout | oserror | valueerror
+     computed by `drun` (Model3.lean): fault classes come from `BSock.rtags` / `stags`
   duo <line> | <line>                   two independent sockets (the harness interleaves their calls):
                                         output `<out> | <out>`
      output: per read `,`-joined <res>/<rbuf hex>
@@ -94,23 +100,31 @@ def faultTags (s : String) : List Bool :=
   (splitOnChar s ',').filterMap fun w =>
     if w = "e" then some true else if w = "t" || w = "w" then some false else none
 
-/-- a raised fault is the next unconsumed fault of the script (`timeout_accounting_exact`,
-    `send_fault_accounting`) -/
-def showFault (tags : List Bool) : String × List Bool :=
-  match tags with
-  | true :: ts => ("oserror", ts)
-  | _ :: ts => ("timeout", ts)
-  | [] => ("timeout", [])
+/-! the rx / tx lines run on the one-object model too (`dcall` / `dsop`, Model3.lean): the class of a raised
+    fault is `BSock.rtags` / `stags` bookkeeping of the model (`fault_class_exact`), not of the driver -/
 
-/-- one op with the harness's retry discipline; emits a record per attempt -/
-def runOp (cfg : Cfg) (op : Op) : Nat → St → List Bool → List String → St × List Bool × List String
-  | 0, st, tags, acc => (st, tags, acc)
-  | k + 1, st, tags, acc =>
-    let (r, st') := attempt cfg op st
-    if r = .timeout then
-      let (name, tags') := showFault tags
-      runOp cfg op k st' tags' (s!"{name}/{natsToHex st'.rbuf}" :: acc)
-    else (st', tags, s!"{showRes r}/{natsToHex st'.rbuf}" :: acc)
+def tagsOf (s : String) : List Fault :=
+  (faultTags s).map fun b => if b then Fault.osError else Fault.timeout
+
+def showDOut : DOut → String
+  | .rx (some r) => showRes r
+  | .rx none => "none"
+  | .tx (.sent n) => s!"sent:{n}"
+  | .tx .none => "none"
+  | .tx .timeout => "timeout"
+  | .fault .timeout => "timeout"
+  | .fault .osError => "oserror"
+  | .valueError => "valueerror"
+
+/-- one call with the harness's retry discipline (again after a fault, at most `k` attempts); a record per attempt -/
+def runCallD (c : Call) : Nat → BSock → List String → BSock × List String
+  | 0, b, acc => (b, acc)
+  | k + 1, b, acc =>
+    let (out, b') := dcall Gen.RECV_LARGE_MAXSIZE c b
+    let rec_ := s!"{showDOut out}/{natsToHex b'.rx.rbuf}"
+    match out with
+    | .fault _ => runCallD c k b' (rec_ :: acc)
+    | _ => (b', rec_ :: acc)
 
 def handleRx (toks : List String) : String :=
   match toks with
@@ -119,21 +133,17 @@ def handleRx (toks : List String) : String :=
     | some rs, some ms, some evs =>
       let cfg : Cfg := ⟨rs, ms⟩
       let tries := if retry = "1" then nTimeouts evs + 1 else 1
-      let rec go (cfg : Cfg) (st : St) (tags : List Bool) (ops : List String) (acc : List String) :
-          Option (List String) :=
+      let rec go (b : BSock) (ops : List String) (acc : List String) : Option (List String) :=
         match ops with
         | [] => some acc.reverse
         | t :: ts =>
           match parseCall? t with
           | some c =>
-            match c.op Gen.RECV_LARGE_MAXSIZE cfg.maxsize with
-            | some op => let (st', tags', acc') := runOp cfg op tries st tags acc; go cfg st' tags' ts acc'
-            | none =>
-              -- setmaxsize(n): `callAttempt` gives the new configuration, the state is untouched
-              let (_, cfg', st') := callAttempt Gen.RECV_LARGE_MAXSIZE cfg c st
-              go cfg' st' tags ts (s!"none/{natsToHex st'.rbuf}" :: acc)
+            -- setmaxsize never raises, so it gets its single record either way
+            let (b', acc') := runCallD c tries b acc
+            go b' ts acc'
           | none => none
-      match go cfg ⟨[], evs⟩ (faultTags script) ops [] with
+      match go ⟨cfg, ⟨[], evs⟩, ⟨[], [], []⟩, tagsOf script, []⟩ ops [] with
       | some outs =>
         let body := if outs.isEmpty then "-" else ";".intercalate outs
         if retry = "1" then
@@ -180,16 +190,15 @@ def handleTx (toks : List String) : String :=
   | script :: ops =>
     match parseSScript? script with
     | some evs =>
-      let rec go (st : SSt) (tags : List Bool) (ops : List String) (acc : List String) : Option (List String) :=
+      let rec go (b : BSock) (ops : List String) (acc : List String) : Option (List String) :=
         match ops with
         | [] => some acc.reverse
         | t :: ts => match parseSOp? t with
           | some op =>
-            let (r, st') := sstep op st
-            let (name, tags') := if r = .timeout then showFault tags else (showSRes r, tags)
-            go st' tags' ts (s!"{name}/{natsToHex st'.getsendbuffer}/{natsToHex st'.wire}" :: acc)
+            let (out, b') := dsop op b
+            go b' ts (s!"{showDOut out}/{natsToHex b'.tx.getsendbuffer}/{natsToHex b'.tx.wire}" :: acc)
           | none => none
-      match go ⟨[], [], evs⟩ (faultTags script) ops [] with
+      match go ⟨⟨1, 0⟩, ⟨[], []⟩, ⟨[], [], evs⟩, [], tagsOf script⟩ ops [] with
       | some outs =>
         -- faults of the script not used up by the whole history
         let left := nSF (srun (ops.filterMap parseSOp?) ⟨[], [], evs⟩).2.script
@@ -261,7 +270,7 @@ def handleNs (toks : List String) : String :=
         | (.timeout, st') => let (st'', s) := flushUntil bound st' "timeout"; (st'', s :: acc.2))
         (⟨[], [], wscript⟩, [])
       let script := cutChunks cuts wst.wire
-      let (rres, _) := NsSock.readNsMany nsCfg ns arg nreads ⟨[], script⟩
+      let (rres, _) := NsSock.readNsManyI nsCfg ns arg nreads ⟨[], script⟩
       s!"W:{",".intercalate wouts.reverse};{natsToHex wst.wire};{",".intercalate (rres.map showNsRes)}"
     | _, _, _, _, _, _ => "bad-op"
   | _ => "bad-op"
@@ -274,11 +283,55 @@ def handleNsr (toks : List String) : String :=
       let rec go : Nat → St → List String → List String
         | 0, _, acc => acc.reverse
         | k + 1, st, acc =>
-          let (r, st') := ns.readNs nsCfg arg st
+          let (r, st') := ns.readNsI nsCfg arg st
           go k st' (s!"{showNsRes r}/{natsToHex st'.rbuf}" :: acc)
       let outs := go nreads ⟨[], script⟩ []
       if outs.isEmpty then "-" else ",".intercalate outs
     | _, _, _ => "bad-op"
+  | _ => "bad-op"
+
+/-! ### dx: the one-object model (`BSock`, `drun`) -/
+
+def parseDOp? (tok : String) : Option DOp :=
+  let rest := (tok.drop 1).toString
+  match tok.front with
+  | 'R' =>
+    if rest.front = 'F' then
+      match splitOnChar (rest.drop 1).toString ':' with
+      | [n, f] => match n.toNat?, f.toNat? with
+        | some n, some f => some (.recvFlags n f)
+        | _, _ => none
+      | _ => none
+    else (parseCall? rest).map DOp.call
+  | 'S' =>
+    if rest.front = 'F' then
+      match splitOnChar (rest.drop 1).toString ':' with
+      | [d, f] => match hexToNats? d, f.toNat? with
+        | some d, some f => some (.sendFlags d f)
+        | _, _ => none
+      | _ => none
+    else (parseSOp? rest).map DOp.sop
+  | _ => none
+
+def handleDx (toks : List String) : String :=
+  match toks with
+  | rs :: ms :: rscript :: sscript :: ops =>
+    match rs.toNat?, ms.toNat?, parseScript? rscript, parseSScript? sscript,
+          ops.foldr (fun t acc => match acc, parseDOp? t with
+            | some l, some o => some (o :: l) | _, _ => none) (some []) with
+    | some rs, some ms, some revs, some sevs, some dops =>
+      let b0 : BSock := ⟨⟨rs, ms⟩, ⟨[], revs⟩, ⟨[], [], sevs⟩, tagsOf rscript, tagsOf sscript⟩
+      -- one record per call: replay the prefix states through `dstep` (the same function `drun` folds)
+      let rec go (b : BSock) (ops : List DOp) (acc : List String) : List String × BSock :=
+        match ops with
+        | [] => (acc.reverse, b)
+        | o :: os =>
+          let (out, b') := dstep Gen.RECV_LARGE_MAXSIZE o b
+          go b' os (s!"{showDOut out}/{natsToHex b'.rx.rbuf}/{natsToHex b'.tx.getsendbuffer}/{natsToHex b'.tx.wire}" :: acc)
+      let (outs, _) := go b0 dops []
+      let bf := (drun Gen.RECV_LARGE_MAXSIZE dops b0).2
+      s!"{if outs.isEmpty then "-" else ";".intercalate outs} #{nSF bf.tx.script}"
+    | _, _, _, _, _ => "bad-op"
   | _ => "bad-op"
 
 def handle1 (toks : List String) : String :=
@@ -301,6 +354,7 @@ def handle (line : String) : String :=
   | "tx" :: toks => handleTx toks
   | "ns" :: toks => handleNs toks
   | "nsr" :: toks => handleNsr toks
+  | "dx" :: toks => handleDx toks
   | ["int", h] =>
     -- Python's int() on a bytes object, as modelled: `err` = ValueError
     match hexToNats? h with
